@@ -9,4 +9,5 @@ CONSTANTS
   Families = {"one", "two"}
   NRand = 0
   RandSize = 0
+INVARIANT TreesOK0
 INVARIANT Emit
